@@ -80,9 +80,17 @@ func runC29(c *Ctx) {
 			if sel, ok := n.(*ast.SelectorExpr); ok && sel.Sel.Name == "Metadata" {
 				touches = true
 			}
+			// neither does it read one message's headers or attach request-level metadata to the batch RPC: the
+			// receiver overlays per-message metadata on the request-level context, so anything attached to the
+			// batch becomes the base layer of EVERY message in it (one caller's headers restored for another's)
+			if call, ok := n.(*ast.CallExpr); ok {
+				if cal := callee(co.Info(), call); cal != nil && (cal.Name() == "GetMetadata" || cal.Name() == "ContextWithMetadata") {
+					touches = true
+				}
+			}
 			return true
 		})
-		c.Check(bad == "" && !touches, "writer-leaves-metadata-alone", "the flush goroutine never sets or rewrites per-message metadata", c.P.Pos(co.Decl.Pos()), "Metadata written at "+bad)
+		c.Check(bad == "" && !touches, "writer-leaves-metadata-alone", "the flush goroutine never sets, rewrites or reads per-message metadata and attaches no request-level metadata to the batch RPC (per-caller headers travel only inside each message)", c.P.Pos(co.Decl.Pos()), "Metadata touched in the writer goroutine "+bad)
 		// injectMessageMetadata copies every header
 		ij := c.Func("internal/remoteclient", "client.injectMessageMetadata")
 		iinfo := ij.Info()
